@@ -27,7 +27,8 @@ RULE = (
     "validation, JSON dump / validate and ReferenceTuple give back an equal object split at the first separator; "
     "separator-free strings are rejected with a ValueError; over all ordered pairs and triples of the pool: == iff equal "
     "(prefix, identifier), equal => equal hash, the name never matters, '<' is the tuple order (irreflexive, asymmetric, "
-    "transitive, total on distinct pairs, sorted() agrees); attribute assignment raises; with a generated converter as "
+    "transitive, total on distinct pairs, sorted() agrees), also for references derived from already used ones by "
+    "model_copy (plain, deep, with updated prefix or identifier), copy.copy and pickle; attribute assignment raises; with a generated converter as "
     "validation context (three ways of passing it) the prefix is standardised exactly as the model predicts and unknown "
     "prefixes raise a ValidationError; triples written with write_triples (plain and .gz) read back equal. key = class "
     "mix x identifier features x law; non-trivial = an identifier contains the separator or a control / blank character, "
@@ -148,6 +149,37 @@ def run_case(ctx, g, rng):
             violation(["C15"], "ref:eq-hash-order", "sorted-disagrees-with-tuple-order", got=got)
         if len({o for o, *_ in objs}) != len({k for _, k, *_ in objs}):
             violation(["C15"], "ref:eq-hash-order", "set-membership-not-by-prefix-and-identifier", pool=[repr(o) for o, *_ in objs])
+    # references derived from used ones (copies, updated copies, pickles): the same laws, on objects with a past
+    import copy as _copy
+    import pickle as _pickle
+
+    derived = []
+    for o, k, c, n in objs:
+        hash(o), o.pair, o < o, o == o  # make sure the original has been used before it is copied
+        np_, ni = rng.choice(keyp), rng.choice(keyi)
+        for how, f, key in (
+            ("model_copy", lambda o=o: o.model_copy(), k),
+            ("model_copy-deep", lambda o=o: o.model_copy(deep=True), k),
+            ("update-identifier", lambda o=o, ni=ni: o.model_copy(update={"identifier": ni}), (k[0], ni)),
+            ("update-prefix", lambda o=o, np_=np_: o.model_copy(update={"prefix": np_}), (np_, k[1])),
+            ("copy.copy", lambda o=o: _copy.copy(o), k),
+            ("pickle", lambda o=o: _pickle.loads(_pickle.dumps(o)), k),
+        ):
+            r = call(f)
+            if r[0] == "ret":
+                derived.append((r[1], key, c, how))
+    for (x, kx, cx, hx), (y, ky, cy, ny) in itertools.product(derived, [(o, k, c, n) for o, k, c, n in objs] + derived[:6]):
+        evaluated("ref:eq-hash-order")
+        w = {"x": repr(x), "x_derived_by": hx, "y": repr(y)}
+        if (x == y) != (kx == ky) or (y == x) != (kx == ky):
+            violation(["C15"], "ref:eq-hash-order", "equality-not-determined-by-prefix-and-identifier", **w)
+        if kx == ky and hash(x) != hash(y):
+            violation(["C15"], "ref:eq-hash-order", "equal-references-hash-differently", **w)
+        if (x < y) != (kx < ky) or (y < x) != (ky < kx):
+            violation(["C15"], "ref:eq-hash-order", "less-than-is-not-tuple-order", **w)
+        if (x.prefix, x.identifier) != kx or x.curie != f"{kx[0]}:{kx[1]}" or x.pair != kx:
+            violation(["C15"], "ref:print-parse", "derived-reference-prints-wrongly", expected=list(kx), **w)
+    probe.note_key(f"derived:{len(derived)}", bool(derived))
     for o, k, c, n in pool:
         if c == "tuple":
             evaluated("ref:eq-hash-order")
